@@ -669,6 +669,6 @@ ORACLES = {"compute": case_compute, "execute": case_execute, "seed": case_seed}
 
 
 def run(ctx):
-    ctx.drive("compute", cases(["lib", "lib", "top", "model"]), case_compute, quick=1000, thorough=5000)
-    ctx.drive("execute", cases(["exec", "exec", "exec_factory"]), case_execute, quick=450, thorough=2500)
-    ctx.drive("seed", seed_cases(), case_seed, quick=350, thorough=2000)
+    ctx.drive("compute", cases(["lib", "lib", "top", "model"]), case_compute, quick=1000, thorough=4000)
+    ctx.drive("execute", cases(["exec", "exec", "exec_factory"]), case_execute, quick=450, thorough=2000)
+    ctx.drive("seed", seed_cases(), case_seed, quick=350, thorough=1500)
